@@ -19,7 +19,7 @@ fn property() -> &'static str {
     PROPERTY.get().map(|s| s.as_str()).unwrap_or("C03")
 }
 fn rerun_hint() -> String {
-    format!("harness/target/release/{} --replay <this file>", if property() == "C02" { "c02e" } else { "c03" })
+    format!("harness/target/release/{} --replay <this file>", match property() { "C02" => "c02e", "C04" => "c04e", _ => "c03" })
 }
 
 // ------------------------------------------------------------------ program trees
@@ -328,11 +328,40 @@ fn render_outcome(tera: &Tera, name: &str, ctx: &Context) -> String {
     }
 }
 
+/// Inheritance cases say which template (and block) to render in their stream name:
+/// `inherit|<template>|<block or empty>`
+fn inherit_target(case: &Case) -> Option<(String, Option<String>)> {
+    let mut it = case.stream.split('|');
+    if it.next()? != "inherit" {
+        return None;
+    }
+    let name = it.next()?.to_string();
+    let block = it.next().filter(|b| !b.is_empty()).map(|b| b.to_string());
+    Some((name, block))
+}
+
 fn run_real(case: &Case) -> String {
     match build_engine(case) {
         Err(e) if e.starts_with("panic ") => e,
         Err(e) => format!("adderr {}", e.lines().next().unwrap_or("")),
-        Ok(tera) => render_outcome(&tera, &case.templates[0].0, &context_of(case)),
+        Ok(tera) => match inherit_target(case) {
+            None => render_outcome(&tera, &case.templates[0].0, &context_of(case)),
+            Some((name, None)) => render_outcome(&tera, &name, &context_of(case)),
+            Some((name, Some(block))) => {
+                let ctx = context_of(case);
+                match catch(std::panic::AssertUnwindSafe(|| tera.render_block(&name, &block, &ctx))) {
+                    Err(p) => format!("panic {p}"),
+                    Ok(Ok(text)) => format!("ok {}", hex(text.as_bytes())),
+                    Ok(Err(e)) => {
+                        let msg = match e.kind() {
+                            tera::ErrorKind::RenderingError(r) => r.message().to_string(),
+                            _ => e.to_string(),
+                        };
+                        format!("err {}", classify(&msg))
+                    }
+                }
+            }
+        },
     }
 }
 
@@ -345,8 +374,27 @@ fn show_outcome(o: &str) -> String {
 
 /// The request line for the model: the REAL parser's AST of every template
 fn model_request(case: &Case) -> Result<String, String> {
-    let mut s = format!("render n:{} T{}", hex(case.templates[0].0.as_bytes()), case.templates.len());
+    let target = inherit_target(case);
+    let mut s = match &target {
+        None => format!("render n:{} T{}", hex(case.templates[0].0.as_bytes()), case.templates.len()),
+        Some((name, block)) => format!(
+            "renderx n:{} {} R{}",
+            hex(name.as_bytes()),
+            match block { Some(b) => format!("O1 n:{}", hex(b.as_bytes())), None => "O0".to_string() },
+            case.templates.len()
+        ),
+    };
     for (name, src) in case.sources() {
+        if target.is_some() {
+            // `T ostr(parent) nodes components`: the whole ParserOutput (no component definitions here)
+            let tw = match catch(std::panic::AssertUnwindSafe(|| tera::verif_hooks::template_wire(&src, Delimiters::default()).map_err(|e| format!("{:?}", e.kind())))) {
+                Ok(r) => r?,
+                Err(p) => return Err(format!("panic {p}")),
+            };
+            let body = tw.strip_prefix("T ").and_then(|t| t.strip_suffix(" Cs0")).ok_or_else(|| "template with component definitions".to_string())?;
+            s.push_str(&format!(" n:{} {} {}", hex(name.as_bytes()), if autoescapes(&name) { 1 } else { 0 }, body));
+            continue;
+        }
         let ast = match catch(std::panic::AssertUnwindSafe(|| tera::verif_hooks::ast_wire(&src, Delimiters::default()).map_err(|e| format!("{:?}", e.kind())))) {
             Ok(r) => r?,
             Err(p) => return Err(format!("panic {p}")),
@@ -2096,6 +2144,295 @@ fn exhaustive_small(max_nodes: usize) -> Vec<Case> {
     out
 }
 
+
+// ------------------------------------------------------------------ inheritance (C04 on the evaluator)
+
+/// One definition of a block in a marker family: its own text, where `{{ super() }}` sits
+/// (0 = absent, 1 = before the text, 2 = after, 3 = as `{% set z = super() %}…{{ z }}`), and for
+/// block `a` whether the nested block `c` is (re)declared inside it
+#[derive(Clone, Copy, Debug, PartialEq)]
+struct BDef {
+    sup: u8,
+    nested_c: bool,
+}
+
+/// levels[k][b]: definition of block b (0 = a, 1 = b, 2 = c) in the template at depth k of the chain
+type Family = Vec<[Option<BDef>; 3]>;
+const BNAMES: [&str; 3] = ["a", "b", "c"];
+
+fn family_sources(f: &Family) -> Vec<(String, Vec<St>)> {
+    let mut out = Vec::new();
+    for (k, lvl) in f.iter().enumerate() {
+        let def_src = |b: usize, d: &BDef, nested: &dyn Fn() -> String| -> String {
+            let own = format!("{}{k}", BNAMES[b].to_uppercase());
+            let inner = if b == 0 && d.nested_c { format!("{own}<{}>", nested()) } else { own };
+            let body = match d.sup {
+                0 => inner,
+                1 => format!("{{{{ super() }}}}{inner}"),
+                2 => format!("{inner}{{{{ super() }}}}"),
+                _ => format!("{{% set z{n} = super() %}}{inner}({{{{ z{n} }}}})", n = BNAMES[b]),
+            };
+            format!("{{% block {} %}}{body}{{% endblock %}}", BNAMES[b])
+        };
+        let c_decl = || match &lvl[2] {
+            // c declared inside a when a (re)declares it
+            Some(d) => def_src(2, d, &|| String::new()),
+            None => "{% block c %}Cdflt{% endblock %}".to_string(),
+        };
+        let mut src = String::new();
+        if k > 0 {
+            src.push_str(&format!("{{% extends \"t{}\" %}}ignored text{{% set ign = 1 %}}", k - 1));
+        } else {
+            src.push_str("[{{ who }}:");
+        }
+        let a_has_c = lvl[0].is_some_and(|d| d.nested_c);
+        if let Some(d) = &lvl[0] {
+            src.push_str(&def_src(0, d, &c_decl));
+        }
+        if k == 0 {
+            src.push('|');
+        }
+        if let Some(d) = &lvl[1] {
+            src.push_str(&def_src(1, d, &|| String::new()));
+        }
+        if !a_has_c {
+            if let Some(d) = &lvl[2] {
+                src.push_str(&def_src(2, d, &|| String::new()));
+            }
+        }
+        if k == 0 {
+            src.push(']');
+        }
+        out.push((format!("t{k}"), tpl(&src)));
+    }
+    out
+}
+
+/// Reference semantics of blocks, straight from the documentation: a block renders its most
+/// derived definition (searching from template `from` up the chain); `super()` renders the next
+/// definition further up
+thread_local! {
+    /// blocks the reference renderer went through (render_block of a block the layout never reaches is "")
+    static REACHED: std::cell::Cell<[bool; 3]> = const { std::cell::Cell::new([false; 3]) };
+}
+
+fn ref_block(f: &Family, b: usize, from: usize, top: usize) -> Result<String, ()> {
+    if from == top {
+        REACHED.with(|r| {
+            let mut v = r.get();
+            v[b] = true;
+            r.set(v);
+        });
+    }
+    // definitions of b at levels from, from-1, …, 0
+    let Some(k) = (0..=from).rev().find(|k| defines(f, *k, b)) else { return Err(()) };
+    let d = f[k][b].unwrap_or(BDef { sup: 0, nested_c: false });
+    let own = format!("{}{k}", BNAMES[b].to_uppercase());
+    let own = if f[k][b].is_none() { "Cdflt".to_string() } else { own };
+    let inner = if b == 0 && d.nested_c { format!("{own}<{}>", ref_block(f, 2, top, top)?) } else { own };
+    let sup = |f: &Family| -> Result<String, ()> { if k == 0 { Err(()) } else { ref_block(f, b, k - 1, top) } };
+    Ok(match d.sup {
+        0 => inner,
+        1 => format!("{}{inner}", sup(f)?),
+        2 => format!("{inner}{}", sup(f)?),
+        _ => format!("{inner}({})", sup(f)?),
+    })
+}
+
+/// does the template at level k define block b (c also counts when it only appears as the default
+/// declaration inside a)
+fn defines(f: &Family, k: usize, b: usize) -> bool {
+    f[k][b].is_some() || (b == 2 && f[k][0].is_some_and(|d| d.nested_c))
+}
+
+fn family_checks(f: &Family, out: &mut Vec<Check>) {
+    let templates = family_sources(f);
+    for top in 0..f.len() {
+        let mk = |block: Option<&str>| Case {
+            templates: templates.clone(),
+            ctx: vec![("who".to_string(), Value::from(format!("t{top}")))],
+            global: vec![],
+            stream: format!("inherit|t{top}|{}", block.unwrap_or("")),
+        };
+        // full render: the ROOT's layout with every block resolved from `top`
+        REACHED.with(|r| r.set([false; 3]));
+        let a = ref_block(f, 0, top, top);
+        let bb = ref_block(f, 1, top, top);
+        let c_outside = if f[0][0].is_some_and(|d| d.nested_c) { Ok(String::new()) } else { ref_block(f, 2, top, top) };
+        let full = match (&a, &bb, &c_outside) {
+            (Ok(a), Ok(b2), Ok(c)) => Expect::Text(format!("[t{top}:{a}|{b2}{c}]")),
+            _ => Expect::AnyErr,
+        };
+        let full_ok = matches!(full, Expect::Text(_));
+        out.push(Check { oracle: "inherit.render_most_derived_and_super", case: mk(None), expect: full });
+        let reached = REACHED.with(|r| r.get());
+        for (bi, name) in BNAMES.iter().enumerate() {
+            // render_block runs the whole template (an error anywhere is an error) and returns exactly
+            // the text the block writes in that render: "" when the layout never reaches the block
+            let e = if !full_ok {
+                Expect::AnyErr
+            } else if !reached[bi] {
+                Expect::Text(String::new())
+            } else {
+                match ref_block(f, bi, top, top) {
+                    Ok(t) => Expect::Text(t),
+                    Err(()) => Expect::AnyErr,
+                }
+            };
+            out.push(Check { oracle: "inherit.render_block_exact", case: mk(Some(name)), expect: e });
+        }
+    }
+}
+
+fn all_level_options(root: bool) -> Vec<[Option<BDef>; 3]> {
+    let sups: &[u8] = if root { &[0, 1] } else { &[0, 1, 2, 3] };
+    let mut a_opts: Vec<Option<BDef>> = if root { vec![] } else { vec![None] };
+    for s in sups {
+        for n in [false, true] {
+            a_opts.push(Some(BDef { sup: *s, nested_c: n }));
+        }
+    }
+    let mut plain: Vec<Option<BDef>> = if root { vec![] } else { vec![None] };
+    for s in sups {
+        plain.push(Some(BDef { sup: *s, nested_c: false }));
+    }
+    let mut out = Vec::new();
+    for a in &a_opts {
+        for b2 in &plain {
+            for c in &plain {
+                out.push([*a, *b2, *c]);
+            }
+        }
+    }
+    out
+}
+
+/// hand-written families: blocks inside captures (filter section, set block) and a block that a
+/// child introduces inside an overridden block and a grand-child overrides
+fn oracle_inheritance_shapes(out: &mut Vec<Check>) {
+    let fam = |ts: &[(&str, &str)]| -> Vec<(String, Vec<St>)> { ts.iter().map(|(n, s)| (n.to_string(), tpl(s))).collect() };
+    let a = fam(&[
+        ("t0", "{% filter upper %}x{% block b %}b0{% endblock %}{% endfilter %}|{% set s %}{% block a %}a0{% endblock %}{% endset %}[{{ s }}]"),
+        ("t1", "{% extends \"t0\" %}{% block b %}{{ super() }}b1{% endblock %}{% block a %}a1{{ super() }}{% endblock %}"),
+    ]);
+    let b2 = fam(&[
+        ("t0", "[{% block b %}b0{% endblock %}]"),
+        ("t1", "{% extends \"t0\" %}{% block b %}b1<{% block d %}d1{% endblock %}>{{ super() }}{% endblock %}"),
+        ("t2", "{% extends \"t1\" %}{% block d %}d2{{ super() }}{% endblock %}"),
+        ("t3", "{% extends \"t2\" %}{% block b %}b3{% endblock %}"),
+    ]);
+    let cases: Vec<(&Vec<(String, Vec<St>)>, &str, &str, &str)> = vec![
+        (&a, "t0", "", "XB0|[a0]"),
+        (&a, "t0", "b", "b0"),
+        (&a, "t0", "a", "a0"),
+        (&a, "t1", "", "XB0B1|[a1a0]"),
+        (&a, "t1", "b", "b0b1"),
+        (&a, "t1", "a", "a1a0"),
+        (&b2, "t0", "", "[b0]"),
+        (&b2, "t1", "", "[b1<d1>b0]"),
+        (&b2, "t1", "d", "d1"),
+        (&b2, "t2", "", "[b1<d2d1>b0]"),
+        (&b2, "t2", "d", "d2d1"),
+        (&b2, "t2", "b", "b1<d2d1>b0"),
+        (&b2, "t3", "", "[b3]"),
+        (&b2, "t3", "b", "b3"),
+        // d is in t3's lineage map but the layout never reaches it
+        (&b2, "t3", "d", ""),
+    ];
+    for (templates, top, block, expect) in cases {
+        out.push(Check {
+            oracle: "inherit.nested_and_captured_blocks",
+            case: Case { templates: templates.clone(), ctx: vec![], global: vec![], stream: format!("inherit|{top}|{block}") },
+            expect: Expect::Text(expect.to_string()),
+        });
+    }
+}
+
+/// exhaustive over two-level families, sampled (quick) or exhaustive (thorough) over three-level ones
+fn oracle_inheritance(rng: &mut Rng, env: &Env, out: &mut Vec<Check>) {
+    oracle_inheritance_shapes(out);
+    let roots: Vec<[Option<BDef>; 3]> = all_level_options(true).into_iter().filter(|l| l[0].is_some_and(|d| d.sup == 0) || true).collect();
+    let kids = all_level_options(false);
+    // the root must declare all three blocks somewhere for children to be allowed to override them
+    let roots: Vec<_> = roots.into_iter().filter(|l| l[0].is_some() && l[1].is_some()).collect();
+    for r in &roots {
+        // a root calling super() is a render error: keep a few
+        if (r[0].unwrap().sup != 0 || r[1].unwrap().sup != 0 || r[2].is_some_and(|d| d.sup != 0)) && !rng.chance(1, 6) {
+            continue;
+        }
+        for k1 in &kids {
+            if !rng.chance(env.budget(1, 4) as u32, 4) {
+                continue;
+            }
+            family_checks(&vec![*r, *k1], out);
+            for k2 in &kids {
+                if rng.chance(1, env.budget(60, 8) as u32) {
+                    family_checks(&vec![*r, *k1, *k2], out);
+                }
+            }
+        }
+    }
+}
+
+/// random families: generated statement bodies inside the blocks (model comparison; the capture
+/// and repeat oracles apply as to any program)
+fn gen_family(rng: &mut Rng, hist: &mut BTreeMap<String, u64>) -> Vec<Case> {
+    let depth = 2 + rng.below(2);
+    let mut templates: Vec<(String, Vec<St>)> = Vec::new();
+    let body = |rng: &mut Rng, hist: &mut BTreeMap<String, u64>, n: usize| -> String {
+        let mut g = Gen { rng: R(std::cell::RefCell::new(&mut *rng)), adv: 1, hist: std::mem::take(hist), includable: vec![], no_assign: false, literal_sets: false, no_loop_atoms: false };
+        let ss = g.stmts(2, n, &Scope::base());
+        *hist = g.hist;
+        src_of(&ss)
+    };
+    for k in 0..depth {
+        let mut src = String::new();
+        if k > 0 {
+            src.push_str(&format!("{{% extends \"t{}\" %}}", k - 1));
+        } else {
+            src.push_str(&body(rng, hist, 1));
+        }
+        let mut has_c = false;
+        for (bi, name) in BNAMES.iter().enumerate() {
+            if bi == 2 {
+                continue; // c lives inside a
+            }
+            if k > 0 && rng.chance(1, 3) {
+                continue;
+            }
+            let nb = rng.below(3) + 1;
+            let mut inner = body(rng, hist, nb);
+            if k > 0 && rng.chance(2, 3) {
+                let sup = if rng.chance(1, 4) { "{% set z = super() %}<{{ z }}>" } else { "{{ super() }}" };
+                if rng.chance(1, 2) { inner = format!("{sup}{inner}") } else { inner.push_str(sup) }
+            }
+            if bi == 0 && (k == 0 || rng.chance(1, 2)) {
+                has_c = true;
+                let c_inner = body(rng, hist, 1);
+                let c_sup = if k > 0 && rng.chance(1, 2) { "{{ super() }}" } else { "" };
+                inner.push_str(&format!("{{% block c %}}{c_inner}{c_sup}{{% endblock %}}"));
+            }
+            src.push_str(&format!("{{% block {name} %}}{inner}{{% endblock %}}"));
+            if k == 0 {
+                src.push_str(&body(rng, hist, 1));
+            }
+        }
+        if k > 0 && !has_c && rng.chance(1, 2) {
+            // an override of the nested block on its own (not re-opening its parent block)
+            src.push_str(&format!("{{% block c %}}{}{{% endblock %}}", body(rng, hist, 1)));
+        }
+        templates.push((format!("t{k}"), tpl(&src)));
+    }
+    let (ctx, global) = gen_contexts(rng, false);
+    let mut out = Vec::new();
+    for top in 0..depth {
+        out.push(Case { templates: templates.clone(), ctx: ctx.clone(), global: global.clone(), stream: format!("inherit|t{top}|") });
+        let b2 = *rng.pick(&BNAMES);
+        out.push(Case { templates: templates.clone(), ctx: ctx.clone(), global: global.clone(), stream: format!("inherit|t{top}|{b2}") });
+    }
+    out
+}
+
 // ------------------------------------------------------------------ shrinking
 
 fn ex_variants(e: &Ex) -> Vec<Ex> {
@@ -2476,6 +2813,7 @@ fn iterate_targets_nonzero(tera: &Tera, case: &Case) -> Result<u64, String> {
 pub fn run(prop: &str) {
     let _ = PROPERTY.set(prop.to_string());
     let c02 = prop == "C02";
+    let c04 = prop == "C04";
     if std::env::var("VERIF_LOUD").is_err() {
         quiet_panics();
     }
@@ -2569,7 +2907,10 @@ pub fn run(prop: &str) {
 
     // ---- fixed oracle programs
     let mut fixed: Vec<Check> = Vec::new();
-    for _ in 0..env.budget(6, 60) {
+    if c04 {
+        oracle_inheritance(&mut rng, &env, &mut fixed);
+    }
+    for _ in 0..(if c04 { 0 } else { env.budget(6, 60) }) {
         oracle_short_circuit(&mut rng, &mut fixed);
         oracle_if(&mut rng, &mut fixed);
         oracle_undefined(&mut rng, &mut fixed);
@@ -2583,16 +2924,18 @@ pub fn run(prop: &str) {
         }
         oracle_scoping_deep(&mut fixed);
     }
-    oracle_type_errors(&mut fixed);
-    for _ in 0..env.budget(1, 4) {
-        oracle_lazy_paths(&mut rng, &mut fixed);
+    if !c04 {
+        oracle_type_errors(&mut fixed);
+        for _ in 0..env.budget(1, 4) {
+            oracle_lazy_paths(&mut rng, &mut fixed);
+        }
+        oracle_undefined_matrix(&mut fixed);
     }
-    oracle_undefined_matrix(&mut fixed);
     report.count_n("oracle.fixed_checks", fixed.len() as u64);
 
     // ---- batches (bounded memory): generate, run engine and model, compare, judge
     // under C02 the generated programs are extra model-comparison coverage of expression evaluation
-    let total_programs = if c02 { env.budget(8_000, 300_000) } else { env.budget(20_000, 600_000) };
+    let total_programs = if c04 { env.budget(6_000, 200_000) } else if c02 { env.budget(8_000, 300_000) } else { env.budget(20_000, 600_000) };
     let total_programs = std::env::var("VERIF_EVAL_PROGRAMS").ok().and_then(|s| s.parse().ok()).unwrap_or(total_programs);
     let batch_size = 16_000;
     let mut distinct: std::collections::HashSet<u64> = std::collections::HashSet::new();
@@ -2606,7 +2949,7 @@ pub fn run(prop: &str) {
     let mut first_batch = true;
     // exhaustive part: every statement tree with at most 3 (quick) / 4 (thorough) nodes
     let max_nodes = std::env::var("VERIF_EVAL_MAX_NODES").ok().and_then(|s| s.parse().ok()).unwrap_or(env.budget(3, 5));
-    let mut small = if c02 { Vec::new() } else { exhaustive_small(max_nodes) };
+    let mut small = if c02 || c04 { Vec::new() } else { exhaustive_small(max_nodes) };
     report.count_n("exhaustive_small.programs", small.len() as u64);
     report.notes.push(format!("exhaustive over statement trees with at most {max_nodes} nodes (alphabet: text, probe, set, set_global, include, loop variable, loop.index, set of the loop variable, break, continue; if, set block, filter section, for, for/else; 3 contexts each): {} programs", small.len()));
     while made < total_programs || first_batch || !small.is_empty() {
@@ -2615,7 +2958,10 @@ pub fn run(prop: &str) {
         let mut programs: Vec<Case> = Vec::with_capacity(n);
         let take = small.len().min(batch_size.saturating_sub(n).max(4000));
         programs.extend(small.drain(..take));
-        for k in 0..n {
+        while c04 && programs.len() < n {
+            programs.extend(gen_family(&mut rng, &mut hist));
+        }
+        for k in 0..(if c04 { 0 } else { n }) {
             // 55 % directed, 18 % adversarial, 10 % autoescaping, 17 % include-inline candidates
             let c = match k % 100 {
                 0..=54 => gen_program(&mut rng, false, false, false, &mut hist),
@@ -2629,6 +2975,9 @@ pub fn run(prop: &str) {
         first_batch = false;
         let n_fixed = checks.len();
         for (i, p) in programs.iter().enumerate() {
+            if p.stream.starts_with("inherit") {
+                continue;
+            }
             if p.stream == "include_inline" || p.stream == "exhaustive_small" || i % env.budget(3, 2) == 0 {
                 derived_checks(p, &mut checks);
             }
@@ -2678,7 +3027,7 @@ pub fn run(prop: &str) {
         for (i, c) in all_cases.iter().enumerate() {
             report.evaluations += 1;
             let class = real[i].split(' ').take(if real[i].starts_with("err") { 2 } else { 1 }).collect::<Vec<_>>().join(" ");
-            let stream = if i < n_prog { c.stream.clone() } else { "oracle".to_string() };
+            let stream = if i < n_prog { c.stream.split('|').next().unwrap_or("").to_string() } else { "oracle".to_string() };
             report.count(&format!("outcome.{stream}.{class}"));
             if i < n_prog {
                 report.count(&format!("size.{}", match c.size() { 0..=15 => "00-15", 16..=40 => "16-40", 41..=100 => "41-100", _ => "100+" }));
@@ -2733,6 +3082,11 @@ pub fn run(prop: &str) {
             &programs,
             threads,
             |c| {
+                if c.stream.starts_with("inherit") {
+                    // two renders of the same case through fresh instances
+                    let (a, b2) = (run_real(c), run_real(c));
+                    return (a != b2).then(|| format!("two renders differ: {} / {}", show_outcome(&a), show_outcome(&b2)));
+                }
                 let tera = build_engine(c).ok()?;
                 let ctx = context_of(c);
                 let a = render_outcome(&tera, &c.templates[0].0, &ctx);
@@ -2808,7 +3162,7 @@ pub fn run(prop: &str) {
             "property",
             format!("{}: {}", chk.oracle, detail.0),
             serde_json::json!({
-                "oracle": chk.oracle, "harness_bin": if property() == "C02" { "c02e" } else { "c03" }, "case": case_json(&case), "reference": detail.1.as_ref().map(case_json),
+                "oracle": chk.oracle, "harness_bin": match property() { "C02" => "c02e", "C04" => "c04e", _ => "c03" }, "case": case_json(&case), "reference": detail.1.as_ref().map(case_json),
                 "expected": format!("{:?}", match &chk.expect { Expect::SameAs(_) => "same outcome as the reference program".to_string(), Expect::UpperOf(_) => "upper-cased outcome of the reference program".to_string(), e => format!("{e:?}") }),
                 "implementation": show_outcome(&run_real(&case)), "rerun": rerun_hint(),
             }),
